@@ -65,6 +65,11 @@ CLAIMED = {
         text="TLC checks that the Euler recursion has the closed forms x0 + c*Y_T and x0*prod(1+dY_i) for all small driver paths, and df(0)=1, positivity, monotonicity of the compounding rule at every mesh time. The real schemes are run on scripted driver paths (increments, times and chain drift in quarters) for a = Constant and DiagX, single process and both components of the coupled pair with their own drifts; TLC validates every step of the solution in exact sixteenths and the time-step rule epsilon = h^BG. df(t) of LevyModel, ExponentialOfLevyModel, LevyCopulaModel, LevyDrivenSDEModel, LevyForwardModel (even / uneven tenors, copula driver), LevyLiborModel on a mesh with points at and next to each tenor: df(0)=1, positive, non-increasing, no jump.",
         note="Trusted: TLC, scripted driver paths, exact / quantised sensors. One-dimensional driver only.",
         ref="5 (C16)"),
+    "C08": dict(
+        technique="TLA+ spec Rng.tla (generator states <<epoch, pos>>, pre-drawn deques, forked workers, clock) model-checked by TLC over all chunkings / interleavings; real pricing runs with both engines, 1-2 processes, observed from outside and trace-validated by TLC",
+        text="TLC explores every assignment of samples to workers, every interleaving, 1-2 phases, clock ticking or not, seed given or not, and checks Reproducible, NoSharedVariates, PreDrawnOnce, NoReseedToUsedState for the seeding discipline of the (repaired) engines; the pinned disciplines are kept as configurations that must violate them. Real standard and multilevel engines (direct HEM, HEM chain, coupled chain; fixed-level and adaptive; 1 and 2 processes; seed / no seed) are each run twice; every sample carries its process, generator fingerprint before/after, the identities of the pre-drawn rows it popped and a hash of its values; TLC validates: no two samples start from the same generator state or have equal values, every pre-drawn row popped once, no seed call lands on a state from which variates were already consumed, seeded single-process runs repeat bit for bit.",
+        note="Trusted: TLC, class-level wrappers installed by the driver (no repo hooks), fingerprints (equality only). Known finding: worker processes pop private copies of the pre-drawn deques (C08-forked-deque-copies) - multi-process violations of PreDrawnOnce / NoSharedVariates are therefore reported as that finding.",
+        ref="5 (C08)"),
 }
 
 NOT_APPLICABLE = {
